@@ -124,7 +124,9 @@ def gen_matrix(rng, opts=None):
     for k in range(rng.randint(1, opts.get("maxframes", 4))):
         ext = opts.get("ext", True) and rng.random() < 0.35
         for _ in range(10):
-            arbid = rng.randrange(1, 1 << 29) if ext else rng.randrange(1, 1 << 11)
+            arbid = rng.randrange(0, 1 << 29) if ext else rng.randrange(0, 1 << 11)
+            if rng.random() < 0.06:
+                arbid = rng.choice([0, 0, (1 << 29) - 1 if ext else (1 << 11) - 1])     # boundary identifiers
             if ext and opts.get("ext_small", False) and rng.random() < 0.3:
                 arbid = rng.randrange(1, 0x7FF)
             if arbid not in ids:
